@@ -248,6 +248,23 @@ CLAIMED = {
         "large-cell defect of C10/C11).",
    technique="Coq proof (restartability from the disk-level recovery theorem) + nested crash-image correspondence",
    design="7 (C08)"),
+ "C14": dict(
+   text="Props/C14.v, for a lock model of threads that acquire and release reader/writer locks (pager lock and page latches): if every "
+        "thread's sequence follows the discipline for one rank of the objects (increasing rank, except that a shared latch already "
+        "held may be re-requested), then for EVERY schedule no reachable state is deadlocked and every step consumes one action, so "
+        "all statements finish (C14_no_deadlock, C14_completion); with parking_lot's fair read the statement is refuted "
+        "(C14_fair_read_refuted) - that deadlock was reproduced on the engine (one SELECT and one INSERT from two threads hang) and "
+        "fixed.  On every run 150 multi-threaded histories (2-6 client threads, pools of 2-8 workers, seeded yield injection at "
+        "every lock acquisition) execute; the lock tap's per-thread sequences are checked against the discipline inside Coq for a "
+        "rank certificate, which extends the no-deadlock conclusion from the observed schedule to all schedules of those sequences; "
+        "completion, absence of internal errors, final contents (= effects of the acknowledged transactions) and every read "
+        "(whole transactions, a prefix of each writer's commits) are checked by a model-independent oracle.  Lost inserts of two "
+        "concurrent writers of one table are a recorded finding.",
+   note="Partial where the truth is in the runtime: the theorem covers all schedules of the recorded lock sequences; races that change "
+        "the sequences, memory-model effects (Arc::strong_count pinning), locks outside the tap (coordinator tables, pool channels) "
+        "and wall-clock bounds are covered by the seeded stress runs only.",
+   technique="Coq proof of deadlock freedom for a lock discipline + verified checker evaluated on lock-tap sequences of real multi-threaded runs + serial-order oracle",
+   design="7 (C14)"),
 }
 NOT_YET = "not claimed yet: model and proofs under construction in this session (see DESIGN.md section 10, build order)"
 
